@@ -28,6 +28,7 @@ type Engine struct {
 	mu        sync.Mutex
 	initAllow []string
 	overlay   map[string]string // virtual path -> real file (for native replay)
+	summaries  sync.Map
 	secondSame int64
 	secondDiff int64
 }
@@ -37,6 +38,8 @@ func (e *Engine) methodValue(sel *types.Selection) *ssa.Function {
 	defer e.mu.Unlock()
 	return e.prog.MethodValue(sel)
 }
+
+func (e *Engine) noteSummary(name string) { e.summaries.Store(name, true) }
 
 func (e *Engine) buildOnDemand(fn *ssa.Function) {}
 
